@@ -662,7 +662,28 @@ def rule_OR2_gatekeeper(ctx, tier):
             rr.fail("g:outdated-height", "the outdated users are selected at `%s`, not at the connected block's height" % " / ".join(og.show(h)[:60] for h in hts), where=f.line_of(bb))
     d = P.require(G_BD)
     _atomic_store_of(ctx, rr, d, "last_known_block_height", (3, 1), "Gatekeeper::block_disconnected")
-    rr.require_floor(6, "OR2g instances")
+    # the in-memory user map starts as the exact image of the users table (and every later change goes to both): a user
+    # dropped from memory only keeps its row, so its next registration hits the existing row (INSERT fails -> unwrap) and
+    # its completed trackers find no owner to refund (unwrap on None) — both under the users and dbm locks
+    gn = P.bodies.get(GK + "new")
+    if gn is None:
+        rr.anchor_missing(GK + "new")
+    else:
+        init = None
+        for bb in gn.rpo():
+            for s_ in gn.blocks[bb]["s"]:
+                if s_["k"] == "assign" and s_["rv"]["k"] == "agg" and s_["rv"].get("adt", "").endswith("gatekeeper::Gatekeeper"):
+                    init = dict(ctx.og._rvalue(gn, s_["rv"], 0, ())[3]).get("registered_users")
+        mut = sorted({(call_target(t) or "").split("::")[-1] for bb, t in gn.calls() if "HashMap" in (call_target(t) or "") and (call_target(t) or "").split("::")[-1] in ("retain", "remove", "clear", "drain", "insert", "extract_if", "remove_entry")})
+        for cid_ in P.family(gn.id):
+            if cid_ != gn.id:
+                mut += ["closure"] if any("HashMap" in (call_target(t) or "") for bb, t in P.bodies[cid_].calls()) else []
+        direct = isinstance(init, tuple) and init and init[0] == "call" and init[1].endswith("Mutex::<T>::new") and init[2] and isinstance(init[2][0], tuple) and init[2][0] and init[2][0][0] in ("call", "ret") and init[2][0][1].endswith("DBM::load_all_users")
+        if direct and not mut:
+            rr.ok("Gatekeeper::new: registered_users = load_all_users(), untouched", sample={"rule": "OR2g", "registered_users": og.show(init)[:120]})
+        else:
+            rr.fail("mirror-init", "`Gatekeeper::new` does not start from the exact content of the users table (%s%s): users missing from memory keep their rows, and the code that relies on memory == table (INSERT of a 'new' user, refund of a tracker's owner) panics under the users and dbm locks" % (og.show(init)[:80] if init is not None else "no registered_users initialiser", (", then " + "/".join(mut)) if mut else ""), where=gn.span)
+    rr.require_floor(7, "OR2g instances")
     return rr
 
 
